@@ -11,6 +11,12 @@ CHECKS = {
     "C01": dict(engine="X", technique=X, design="§4 C01",
                 text="Bounded symbolic model checking of the real Visitor on hand-built ast trees (statement kinds per slot bound by the driver over the full cross product; names, every line number and docstring text symbolic) against a reference binding model, plus the visibility decision table and span slicing for all (lineno, endlineno). Hand-built trees are validated against ast.parse of a second rendering on every run. Not a proof: 2 (quick) / 3 (thorough) module-level slots, one nesting level.",
                 note="Trusted: CrossHair models + z3; reference binding model (written from the property statement); hand-built AST == compile() output only validated on the concrete grid and on every counterexample; logging and AliasResolutionError message formatting stubbed."),
+    "C08": dict(engine="X", technique=X, design="§4 C08",
+                text="Bounded symbolic model checking of the serialisation logic (as_dict of every model class and JSONEncoder.default run on trees whose every lineno/endlineno is None/0/positive, docstring presence/span/text, labels and parameter kinds symbolic), followed on every path by the public round trip (as_json -> from_json -> as_json) with CPython's json on the realised tree: identical JSON, equal skeleton, names in reloaded expressions resolving as before; one expression shape per entry of expressions._node_map (menu derived at run time), regular/namespace/built-in module file paths, minimal and full dumps; CLI dump.",
+                note="Trusted: CrossHair models + z3. CrossHair models json in Python (slow and regex-based): the harness traverses the encoder's default() symbolically itself and checks on every path that its traversal equals what json.dumps produces. Known findings: full dumps of built-in modules and of namespace packages outside the cwd raise (regions excluded)."),
+    "C09": dict(engine="X", technique=X, design="§4 C09",
+                text="Bounded symbolic model checking: the full-dump serialisation of the C08 trees (symbolic optional fields, every expression shape, regular and namespace packages, docstrings parsed with every style over a menu containing every section kind) is validated with jsonschema against /repo/docs/schema.json, re-read on every run.",
+                note="Trusted: CrossHair models + z3, jsonschema (Draft 7). The validation itself runs outside the tracer on the realised document."),
     "C10": dict(engine="S", technique=S, design="§4 C10",
                 text="Bounded symbolic model checking with the repo's own diff._function_incompatibilities interpreted from source over two fully symbolic signatures (names, kinds, defaults, return annotations as z3 terms; validity of the def as a constraint) and a symbolic call; four query families (completeness, rules, identity, precision); every counterexample is replayed with real defs, a real call and griffe.visit + find_breaking_changes. N<=2 parameters (quick), N<=3 (thorough).",
                 note="Trusted: pysymex agrees with CPython on the interpreted subset (differential pass each run), z3 reference binder (validated against real calls on the full grid N<=2 each run)."),
